@@ -58,6 +58,21 @@ pub fn run(ctx: &mut Ctx) {
             one(ctx, &cl, &p, true);
         });
     }
+    // wide: the CNF's variables are spread over up to 200 labels (most indices unused)
+    for case in ctx.cases("wide", 300, true) {
+        ctx.run_case("wide", case, |ctx, rng| {
+            let cl = gen_cnf(rng, 8);
+            let n = clauses_num_vars(&cl);
+            if n == 0 {
+                return;
+            }
+            let _g = LabelMapGuard::new(random_label_map(n, rng));
+            fit_label_map(n);
+            ctx.count("compilations_over_spread_labels", 1);
+            let p = rng.perm(n);
+            one(ctx, &cl, &p, case % 2 == 0);
+        });
+    }
     // one builder, several CNFs over the same variables (relatives of each other: shared
     // clauses, so that residual formulas of different compilations look alike), the first one
     // compiled once more at the end
@@ -160,7 +175,27 @@ fn one(ctx: &mut Ctx, cl: &Clauses, perm: &[usize], semantic: bool) {
 fn many(ctx: &mut Ctx, cls: &[Clauses], perm: &[usize], semantic: bool) {
     // the order is over the CNFs' own variables; the oracle table over the generator's
     let n = cls.iter().map(clauses_num_vars).fold(perm.len(), usize::max);
-    let order = VarOrder::new(&perm.iter().map(|x| VarLabel::new(*x as u64)).collect::<Vec<_>>());
+    let order = match label_map() {
+        None => VarOrder::new(&perm.iter().map(|x| VarLabel::new(*x as u64)).collect::<Vec<_>>()),
+        Some(m) => {
+            // wide: the decision order covers every label up to the largest one; the dense
+            // variables keep the relative order `perm`, the unused labels are interleaved
+            let top = m.iter().max().map(|x| x + 1).unwrap_or(1);
+            let mut rest: Vec<usize> = (0..top).filter(|l| !m.contains(l)).collect();
+            let mut h = crate::rng::hash_str(&format!("{:?}{:?}", m, perm));
+            let mut full: Vec<usize> = Vec::new();
+            let mut act: Vec<usize> = perm.iter().rev().map(|v| m[*v]).collect();
+            while !act.is_empty() || !rest.is_empty() {
+                h = crate::rng::mix(h);
+                if !act.is_empty() && (rest.is_empty() || h % 8 == 0) {
+                    full.push(act.pop().unwrap());
+                } else {
+                    full.push(rest.swap_remove((h >> 8) as usize % rest.len()));
+                }
+            }
+            VarOrder::new(&full.iter().map(|x| VarLabel::new(*x as u64)).collect::<Vec<_>>())
+        }
+    };
     crate::caps::set_unique(Some(64));
     macro_rules! go {
         ($b:expr) => {{
@@ -170,7 +205,7 @@ fn many(ctx: &mut Ctx, cls: &[Clauses], perm: &[usize], semantic: bool) {
             for (i, cl) in cls.iter().enumerate() {
                 let cnf = clauses_to_cnf(cl);
                 let exp = clauses_tt(cl, n);
-                let info = json!({"clauses": clauses_json(cl), "order": perm, "store": if semantic { "semantic64" } else { "standard" },
+                let info = json!({"clauses": clauses_json(cl), "order": perm, "label_of_variable": label_map(), "store": if semantic { "semantic64" } else { "standard" },
                     "compiled_before_in_the_same_builder": cls[..i].iter().map(clauses_json).collect::<Vec<_>>()});
                 if i > 0 {
                     ctx.count("compilations_in_a_used_builder", 1);
@@ -191,12 +226,12 @@ fn many(ctx: &mut Ctx, cls: &[Clauses], perm: &[usize], semantic: bool) {
                 let mut w = BddWalker::new(n);
                 for v in perm.iter().take(3) {
                     for pol in [true, false] {
-                        let l = TopDownBuilder::var(&b, VarLabel::new(*v as u64), pol);
+                        let l = TopDownBuilder::var(&b, lab(*v), pol);
                         ctx.count("builder_literals", 1);
                         if w.tt(l) != Tt::lit(n, *v, pol) {
                             ctx.violation("topdown.var", "TopDownBuilder::var does not denote the literal", json!({"var": v, "polarity": pol, "order": perm}));
                         }
-                        let c = TopDownBuilder::condition(&b, l, VarLabel::new(*v as u64), true);
+                        let c = TopDownBuilder::condition(&b, l, lab(*v), true);
                         if w.tt(c) != Tt::konst(n, pol) {
                             ctx.violation("topdown.var", "a builder-made literal conditioned on its own variable is not the constant", json!({"var": v, "polarity": pol, "order": perm}));
                         }
@@ -222,7 +257,7 @@ fn vars_below(p: BddPtr, memo: &mut HashMap<usize, u64>, twice: &mut bool) -> u6
                 return *m;
             }
             let below = vars_below(nd.low, memo, twice) | vars_below(nd.high, memo, twice);
-            let bit = 1u64 << nd.var.value_usize();
+            let bit = 1u64 << unlab(nd.var).min(63);
             if below & bit != 0 {
                 *twice = true;
             }
@@ -237,6 +272,10 @@ fn check<'a, B: DecisionNNFBuilder<'a>>(ctx: &mut Ctx, b: &'a B, cnf: &rsdd::rep
     let mut w = BddWalker::new(usize::max(n, 1));
     let expw = if n == 0 { exp.widen(1) } else { exp.clone() };
     let got = w.tt(r);
+    if w.foreign {
+        ctx.violation("topdown.function", "top-down result tests a variable that does not occur in the CNF", json!({"input": info, "diagram": bdd_canon_string(r)}));
+        return r;
+    }
     ctx.count("compilations", 1);
     ctx.seen("kinds", if exp.is_false() { "unsat" } else if exp.is_true() { "valid" } else { "contingent" });
     ctx.case_eval(if expw.is_trivial() { None } else {
@@ -262,7 +301,7 @@ fn check<'a, B: DecisionNNFBuilder<'a>>(ctx: &mut Ctx, b: &'a B, cnf: &rsdd::rep
     for v in 0..n {
         for val in [false, true] {
             for (p, t, which) in [(r, expw.clone(), "result"), (r.neg(), expw.not(), "negation")] {
-                let c = TopDownBuilder::condition(b, p, VarLabel::new(v as u64), val);
+                let c = TopDownBuilder::condition(b, p, lab(v), val);
                 let ct = w.tt(c);
                 ctx.count("conditionings", 1);
                 let e = t.cofactor(v, val);
